@@ -62,7 +62,9 @@ pub fn print_value_cfg() -> gen::ValueCfg {
 /// Builds the crate value through one of two construction routes.
 pub fn build(v: &RefValue, route: bool) -> Value {
 	if route {
-		v.to_value_push()
+		// one of five alternative construction routes, chosen by the value itself (deterministic)
+		let r = crate::framework::hash64(&crate::refprint::compact(v)) % 5;
+		v.to_value_route(1 + r as u8)
 	} else {
 		v.to_value()
 	}
